@@ -11,14 +11,17 @@
    `<result>`: `r<n>` (n FmtStr results appended to the pool), `t<text>`, `i<int>`, `E:<kind>`;
    `D1` = the operation also passes the checked interpreter (discipline) on this heap;
    one `<entry>` per pool value AFTER the step:
-     <fmt id>:<list id>:<chunk ids joined by .>:<4 memo flags uni,len,s,width>:<color_str flag per chunk>!<fmt>!<render>!<len>
-   A dangling reference, a bad pool index or an undecodable operation answers `E:bad-ref`.
+     <fmt id>:<list id>:<chunk ids joined by .>:<4 memo flags uni,len,s,width>:<color_str flag per chunk>:<atts-object id per chunk>!<fmt>!<render>!<len>
+   A dangling reference answers `E:bad-ref`; an undecodable operation, a bad pool index, an attribute-dict
+   method name outside Generated.dictMutators, or a call outside the model's domain (`splice` with
+   end < start) answers `bad-op`.
 
    Operations (operands are pool indices unless noted):
      lit <fmt> | fmtstr <text> <atts|-> | add a b | addstr a <text> | raddstr a <text> | mul a <int>
      join sep <arg>… | getitem a int <i> | getitem a slice <x|N> <y|N> <0|1 step given>
      splice a <arg> <start> <end|N> | append a <arg> | cwna a <atts|-> | nwar a <key,key|-> | cwns a <text> | copy a
-     slices a <s:e,s:e|->                      (split / splitlines: bounds are data)
+     slices a <s:e,s:e|-|E:kind>               (split / splitlines: bounds are data; E:kind = separator rejected)
+     eq a <arg> | hash a
      just <L|R> a <width> <N|t<text>> <a<atts|->|E:kind>   (fill result text and shared_atts are data)
      wslice a int <i> | wslice a slice <x|N> <y|N> | wsplit a <columns> <fmt>~<0|1>…   (yielded lines are data)
      deleg a <E:kind|N|L<text>~<text>…> <a<atts|->|E:kind>
@@ -26,6 +29,7 @@
 import Curtsies.Wire
 import Curtsies.Model.Heap
 import Curtsies.Driver.Width
+import Curtsies.Generated.Heap
 namespace Curtsies.Driver.Heap
 open Curtsies Curtsies.Wire Curtsies.Heap
 
@@ -91,7 +95,9 @@ def decOp (pool : List Nat) (args : List String) : Option Op :=
   | ["nwar", a, ks] => do pure (.nwar (← p a) (← decKeys ks))
   | ["cwns", a, t] => do pure (.cwns (← p a) (← decText t))
   | ["copy", a] => do pure (.copy (← p a))
-  | ["slices", a, bs] => do pure (.slices (← p a) (← decBounds bs))
+  | ["slices", a, bs] => do
+    if bs.startsWith "E:" then pure (.slices (← p a) (.error (← decErr bs)))
+    else pure (.slices (← p a) (.ok (← decBounds bs)))
   | ["just", side, a, w, fill, shared] => do
     let fill ← if fill == "N" then some none
       else if fill.startsWith "t" then (decText (fill.drop 1).toString).map some else none
@@ -105,8 +111,13 @@ def decOp (pool : List Nat) (args : List String) : Option Op :=
   | ["s", a] => do pure (.obsS (← p a))
   | ["width", a] => do pure (.obsWidth (← p a))
   | ["colorstr", a, k] => do pure (.obsColor (← p a) (← k.toNat?))
+  | ["eq", a, other] => do pure (.eq (← p a) (← decArg pool other))
+  | ["hash", a] => do pure (.hash (← p a))
   | ["setitem", a] => do pure (.setitem (← p a))
-  | ["attsmut", a, k, name, after] => do pure (.attsMutate (← p a) (← k.toNat?) name (← decAttsD after))
+  | ["attsmut", a, k, name, after] => do
+    -- only the regenerated mutator names are operations of the model
+    if Generated.dictMutators.contains name then pure (.attsMutate (← p a) (← k.toNat?) name (← decAttsD after))
+    else none
   | _ => none
 
 def flag (b : Bool) : String := if b then "1" else "0"
@@ -118,13 +129,18 @@ def encEntry (h : Heap) (r : Nat) : Option String := do
   let objs ← cs.mapM fun c => h.chunks[c]?
   pure (toString r ++ ":" ++ toString f.chunks ++ ":" ++ ".".intercalate (cs.map toString) ++ ":" ++
     flag f.uni.isSome ++ flag f.len.isSome ++ flag f.s.isSome ++ flag f.width.isSome ++ ":" ++
-    String.join (objs.map fun o => flag o.colorStr.isSome) ++
+    String.join (objs.map fun o => flag o.colorStr.isSome) ++ ":" ++
+    -- identity of each run's attribute-dict object: one per run object (`Chunk.__init__` builds a new one)
+    ".".intercalate (cs.map toString) ++
     "!" ++ encFmt v ++ "!" ++ encText (render v) ++ "!" ++ toString (len v))
 
 def encRes : Res → String
   | .refs rs => "r" ++ toString rs.length
   | .text t => "t" ++ encText t
   | .int i => "i" ++ toString i
+  | .bool b => "b" ++ flag b
+  | .opaque => "o"
+  | .outside => "outside"
   | .err e => "E:" ++ e.name
 
 /-- split the token list at the "/" tokens -/
@@ -135,16 +151,23 @@ def splitOps : List String → List (List String)
     | [] => [[t]]
     | cur :: rest => if t == "/" then [] :: cur :: rest else (t :: cur) :: rest
 
-def runSteps (u : UEnv) : List (List String) → List Nat → Heap → Option (List String)
-  | [], _, _ => some []
+def runSteps (u : UEnv) : List (List String) → List Nat → Heap → Except String (List String)
+  | [], _, _ => .ok []
   | toks :: rest, pool, h => do
-    let op ← decOp pool toks
-    let (res, h') ← runOp u op h
+    let op ← match decOp pool toks with
+      | some op => pure op
+      | none => throw "bad-op"
+    let (res, h') ← match runOp u op h with
+      | some x => pure x
+      | none => throw "E:bad-ref"
+    if res == .outside then throw "bad-op"          -- outside the model's domain: no answer
     let disciplined := (interp u true (opCmd u op) [] h).isSome
     let pool' := match res with
       | .refs rs => pool ++ rs
       | _ => pool
-    let entries ← pool'.mapM (encEntry h')
+    let entries ← match pool'.mapM (encEntry h') with
+      | some es => pure es
+      | none => throw "E:bad-ref"
     let step := encRes res ++ " D" ++ flag disciplined ++ " # " ++ " ".intercalate entries
     let more ← runSteps u rest pool' h'
     pure (step :: more)
@@ -159,8 +182,8 @@ def heapOps (args : List String) : Option String :=
   | "heap" :: wc :: sp :: "/" :: rest => do
     let u ← decEnv wc sp
     match Heap.runSteps u (Heap.splitOps rest) [] {} with
-    | some steps => pure ("ok " ++ " / ".intercalate steps)
-    | none => pure "E:bad-ref"
+    | .ok steps => pure ("ok " ++ " / ".intercalate steps)
+    | .error e => pure e
   | _ => none
 
 end Curtsies.Driver
